@@ -688,6 +688,35 @@ func c19Run(repo, fitgen, dir string, cfg c19Config) (string, c19Info) {
 			}
 		}
 	}
+	// A fifth run into a directory that looks like an earlier run of the same workbook which died
+	// before its last file was complete: the sources that come first are there and identical,
+	// types_string.go is half written (or, every other time, missing its second half and
+	// carrying stale text instead). The run must produce what a fresh directory gets.
+	if cfg.variant%3 == 0 {
+		out := filepath.Join(dir, "out-partial")
+		os.MkdirAll(out, 0o755)
+		for _, f := range files {
+			content := first[f]
+			if f == "types_string.go" {
+				content = append([]byte{}, content[:len(content)/2]...)
+				if cfg.variant%2 == 1 {
+					content = append(content, []byte("\n// stale remainder of an older generation\n")...)
+				}
+			}
+			os.WriteFile(filepath.Join(out, f), content, 0o644)
+		}
+		cmd := exec.Command(fitgen, "-sdk", cfg.version, xlsxPath, out)
+		cmd.Dir = dir
+		if b, err := cmd.CombinedOutput(); err != nil {
+			return fmt.Sprintf("fitgen failed when regenerating over a partially written earlier run: %v: %s", err, tail(b, 400)), info
+		}
+		for _, f := range files {
+			fb, _ := os.ReadFile(filepath.Join(out, f))
+			if !bytes.Equal(first[f], fb) {
+				return fmt.Sprintf("%s differs from a fresh-directory run when the directory held a partially written earlier run of the same workbook (%d vs %d bytes)", f, len(fb), len(first[f])), info
+			}
+		}
+	}
 	for _, f := range []string{"messages.go", "types.go", "profile.go"} {
 		if !bytes.Contains(first[f], []byte("// SDK Version: "+cfg.version+"\n")) {
 			return fmt.Sprintf("%s does not declare '// SDK Version: %s'", f, cfg.version), info
